@@ -161,6 +161,10 @@ type cluster struct {
 	// resultHook, if set, sees every airgapped result before it is handed to the participant's node (a participant
 	// controls both of its machines, so it may alter its own results)
 	resultHook func(n *vnode, res *types.Operation)
+	// cacheResults: an operation is carried to the airgapped machine once; if its result has to be submitted
+	// again (the node died in between) the operator submits the same result file
+	cacheResults bool
+	resultCache  map[string][]byte
 }
 
 var testMnemonics = []string{
@@ -342,16 +346,27 @@ func (c *cluster) answerOp(n *vnode, op *types.Operation) error {
 	if string(cold.Type) == string(spf.StateAwaitParticipantsConfirmations) {
 		return n.svc.ApproveParticipation(&dto.OperationIdDTO{OperationID: cold.ID})
 	}
-	n.coldLog = append(n.coldLog, cold)
-	path, err := n.air.ProcessOperation(cold, true)
-	if err != nil {
-		return fmt.Errorf("airgapped: %w", err)
+	var rb []byte
+	if cached, ok := c.resultCache[n.name+"/"+cold.ID]; ok && c.cacheResults {
+		rb = cached
+	} else {
+		n.coldLog = append(n.coldLog, cold)
+		path, err := n.air.ProcessOperation(cold, true)
+		if err != nil {
+			return fmt.Errorf("airgapped: %w", err)
+		}
+		rb, err = os.ReadFile(path)
+		if err != nil {
+			return err
+		}
+		os.Remove(path)
+		if c.cacheResults {
+			if c.resultCache == nil {
+				c.resultCache = map[string][]byte{}
+			}
+			c.resultCache[n.name+"/"+cold.ID] = rb
+		}
 	}
-	rb, err := os.ReadFile(path)
-	if err != nil {
-		return err
-	}
-	os.Remove(path)
 	var res types.Operation
 	if err := json.Unmarshal(rb, &res); err != nil {
 		return fmt.Errorf("result file: %w", err)
